@@ -547,7 +547,8 @@ int usleep(useconds_t useconds) {
 
 int nanosleep(const struct timespec* rqtp, struct timespec* rmtp) {
   if (!thread_locked && fiber_manager_get()) {
-    fiber_sleep(rqtp->tv_sec, rqtp->tv_nsec / 1000 + 1);
+    fiber_sleep(rqtp->tv_sec > UINT32_MAX ? UINT32_MAX : rqtp->tv_sec,
+                rqtp->tv_nsec / 1000 + 1);
     if (rmtp) {
       rmtp->tv_sec = 0;
       rmtp->tv_nsec = 0;
